@@ -206,7 +206,7 @@ def make_evo(arr, mode="se3", stamped=True, meta=None, flavour="array64"):
             return PoseTrajectory3D(poses_se3=poses, timestamps=ts.tolist() if flavour == "lists" else ts,
                                     meta=meta)
         return PosePath3D(poses_se3=poses, meta=meta)
-    q = quats_of(arr["R"])
+    q = np.array(arr["q"], dtype=float) if "q" in arr else quats_of(arr["R"])
     p = np.array(arr["p"], dtype=float)
     t = np.array(arr["t"], dtype=float) if stamped else None
     if flavour == "lists":
@@ -243,6 +243,20 @@ def read_views(traj):
     }
     if hasattr(traj, "timestamps"):
         out["t"] = np.array(traj.timestamps, dtype=float).copy()
+    return out
+
+
+def file_precision(arr, decimals):
+    """
+    The same trajectory as it comes out of a text file with `decimals` digits: quaternions that
+    are unit only to that precision (arr["q"], used by make_evo in xyzq mode) - the poses they
+    describe are those of the normalised quaternions (arr["R"] is recomputed accordingly).
+    """
+    q = np.round(quats_of(arr["R"]), decimals)
+    q[np.linalg.norm(q, axis=1) == 0] = [1.0, 0.0, 0.0, 0.0]
+    out = dict(arr)
+    out["q"] = q
+    out["R"] = np.array([rm.rot_from_quat_wxyz(qk) for qk in q])
     return out
 
 
